@@ -748,6 +748,57 @@ Proof.
   apply gen_retry_exec_iteration_is_model.
 Qed.
 
+(** * pypyr/dsl.py :: WhileDecorator.while_loop *)
+Lemma gen_while_loop_is_model_gen rg rp w sp
+      (prim_poll : Q -> option Z -> st -> iter_result * st) s :
+  (forall sleep mx s0,
+     prim_poll sleep mx s0 = poll LOOPFUEL (while_iter rg rp w sp) (fun _ => Some sleep) mx 0 s0) ->
+  gen_while_loop w prim_poll s = while_loop rg rp w sp s.
+Proof.
+  intros Hp. unfold gen_while_loop, while_loop. cbv zeta.
+  set (s1 := set_ctx s _).
+  assert (Nz : forall z, (z <? 1)%Z = false -> negb (z =? 0)%Z = true).
+  { intros z Hz. apply Z.ltb_ge in Hz. destruct (Z.eqb_spec z 0); [lia|reflexivity]. }
+  destruct (w_stop w) as [e|], (w_max w) as [m|]; cbn [andb opt_truth]; try reflexivity.
+  - (* stop and max *)
+    apply lift_ext; intros eom. apply lift_ext; intros sleep.
+    rewrite lift_bind_ok. apply lift_ext; intros z.
+    destruct (z <? 1)%Z eqn:Hz; [reflexivity|]. rewrite Hp, (Nz z Hz), andb_true_r.
+    destruct (poll _ _ _ _ _ _) as [[[|]|o] s2]; reflexivity.
+  - (* stop only *)
+    apply lift_ext; intros eom. apply lift_ext; intros sleep. cbn [lift].
+    rewrite Hp. destruct (poll _ _ _ _ _ _) as [[[|]|o] s2]; try reflexivity.
+    destruct eom; [|reflexivity]. now rewrite andb_false_r.
+  - (* max only *)
+    apply lift_ext; intros eom. apply lift_ext; intros sleep.
+    rewrite lift_bind_ok. apply lift_ext; intros z.
+    destruct (z <? 1)%Z eqn:Hz; [reflexivity|]. rewrite Hp.
+    destruct (poll _ _ _ _ _ _) as [[[|]|o] s2]; reflexivity.
+Qed.
+
+Lemma gen_while_loop_is_model rg rp w sp s :
+  gen_while_loop w
+    (fun sleep max_attempts s0 =>
+       poll LOOPFUEL (while_iter rg rp w sp) (fun _ => Some sleep) max_attempts 0 s0) s
+  = while_loop rg rp w sp s.
+Proof. apply gen_while_loop_is_model_gen. reflexivity. Qed.
+
+(** the whole while stack as read from the source — while_loop polling exec_iteration through
+    while_until_true's sleep_looper with a constant interval — is the model's [while_loop] *)
+Lemma gen_while_stack_is_model rg rp w sp s :
+  gen_while_loop w
+    (fun sleep max_attempts s0 =>
+       gen_sleep_looper
+         (gen_while_exec_iteration w (fun c => foreach_or_cond rg rp sp (mkcnt (Some c) None None)))
+         false (fun _ => None) (Some sleep) max_attempts LOOPFUEL s0) s
+  = while_loop rg rp w sp s.
+Proof.
+  apply gen_while_loop_is_model_gen. intros sleep mx s0.
+  rewrite (gen_sleep_looper_const_is_model _ (fun _ => Some sleep) mx LOOPFUEL (Some sleep) s0)
+    by reflexivity.
+  apply poll_ext. intros n s1. apply gen_while_exec_iteration_is_model.
+Qed.
+
 (** * Closed form: the engine at fuel [S f] is the generated ladder over the engine at fuel [f] —
     no hypothesis on nested behaviours is left (the balanced-stack invariant is proved by
     induction on fuel in EngineProofs) *)
